@@ -82,12 +82,22 @@ def _act_spec(rng):
 def gen(rng, tier, index):
     n = int(choice(rng, [2, 2, 3]))
     acts = [_act_spec(rng) for _ in range(n)]
+    if rng.random() < 0.4:
+        # same dimension (and sometimes the same memory size) in every activation: scratch buffers
+        # or caches keyed by shape would be shared
+        for a in acts[1:]:
+            if a["problem"]["family"] != "rosen" or acts[0]["problem"]["n"] >= 2:
+                a["problem"]["n"] = min(acts[0]["problem"]["n"], 8) if a["problem"]["family"] == "rosen" else acts[0]["problem"]["n"]
+            if rng.random() < 0.5:
+                a["cfg"]["maxcor"] = acts[0]["cfg"]["maxcor"]
+        acts[0]["problem"]["n"] = acts[0]["problem"]["n"]
     plan = {
         "acts": acts,
         "sched_seed": int(rng.integers(0, 2**31 - 1)),
         "sched_mode": str(choice(rng, ["uniform", "uniform", "alternate", "burst"])),
         "line_preempt": bool(rng.random() < (0.1 if tier == "quick" else 0.15)),
         "n_log_variants": 4 if tier == "quick" else 10,
+        "fresh_interpreter": bool(rng.random() < 0.01),
         "_ints": ["n_log_variants"],
     }
     return plan
@@ -105,6 +115,41 @@ def _prepare(spec):
             blob = Store.dumps(P.result)
             cfg["maxiter"] = int(P.result.nit) + int(cfg["maxiter"])
     return problem, cfg, blob, spec.get("switch")
+
+
+def solo_digests(plan):
+    """Solo digests of the activations of a plan (also run in a fresh interpreter)."""
+    out = []
+    for spec in plan["acts"]:
+        problem, cfg, blob, sw = _prepare(spec)
+        ck = None if blob is None else Store.loads(blob, frozen=True)
+        kw = {}
+        if sw is not None:
+            kw["world"] = World(rewriter=c13.make_rewriter(problem, sw, {"fired": False}))
+        out.append(_dg(Act(problem, cfg, checkpoint=ck, freeze_inputs=True, **kw).run()))
+    return out
+
+
+def _fresh_digests(plan):
+    import json
+    import os
+    import subprocess
+    import sys
+
+    from ..core import jdump
+
+    root = os.path.dirname(os.path.dirname(os.path.dirname(os.path.abspath(__file__))))
+    code = (
+        "import sys, json, warnings; warnings.simplefilter('ignore'); sys.path.insert(0, %r);"
+        "from dsim.scenarios import c14; print('DIGESTS ' + json.dumps(c14.solo_digests(json.loads(%r))))"
+    ) % (root, jdump(plan))
+    env = os.environ.copy()
+    env["PYTHONHASHSEED"] = "987"
+    pr = subprocess.run([sys.executable, "-c", code], capture_output=True, text=True, env=env, timeout=250)
+    for ln in pr.stdout.splitlines():
+        if ln.startswith("DIGESTS "):
+            return json.loads(ln[8:])
+    raise RuntimeError("fresh interpreter probe failed: " + (pr.stdout + pr.stderr)[-500:])
 
 
 def _dg(a):
@@ -156,6 +201,11 @@ def execute(plan):
     if not ok:
         return {"violations": viol, "stats": stats, "keys": keys, "digest": "|".join(_dg(a) for a in solo)}
     ref = [_dg(a) for a in solo]
+    if plan.get("fresh_interpreter"):
+        got = _fresh_digests(plan)
+        stats["or.fresh_interpreter"] += 1
+        if got != ref:
+            add("differs_from_fresh_process", {"here": [r[:12] for r in ref], "fresh": [g[:12] for g in got]})
     # repeated call, same arguments
     again = mk(0).run()
     stats["activations"] += 1
